@@ -18,7 +18,7 @@ import (
 // bundle), and LintAll must not fail on it. The .j5s texts are returned so that the walker stream compares the
 // Gallina walker with the real one on them too.
 func runJ5sGen(cfg *vh.Config, res *vh.Result, caseNo *int, distinct vh.Distinct) (texts []string, how []string) {
-	n := cfg.Scale(24, 300)
+	n := cfg.Scale(14, 300)
 	type job struct {
 		texts map[string]string
 		pkgs  []string
@@ -66,6 +66,13 @@ func runJ5sGen(cfg *vh.Config, res *vh.Result, caseNo *int, distinct vh.Distinct
 			case c.Panic != nil:
 				allOK = false
 				res.Fail(vh.Failure{Case: *caseNo, Stream: "j5sgen", Sig: "C07 j5sgen valid package: panic " + errClass(fmt.Sprint(c.Panic)), Clause: "never panics", Input: in, Got: fmt.Sprint(c.Panic)})
+			case c.Err != nil && strings.Contains(c.Err.Error(), "protobuf uses C++ scoping rules for enum values"):
+				// the generator drew an explicit enum prefix equal to another enum's derived prefix: two X_UNSPECIFIED in one
+				// protobuf scope. Not a valid package (protobuf forbids it), so acceptance is not judged; the POSITION of the
+				// error (generated file, not the source) is.
+				allOK = false
+				res.Count("j5sgen_enum_value_scope_collision")
+				checkPositions(res, *caseNo, "j5sgen", "package "+p, cmpb.Positions(c.Err), j.texts, "", in)
 			case c.Err != nil:
 				allOK = false
 				res.Count("j5sgen_rejected")
